@@ -208,6 +208,7 @@ func checkC01(r *Report, known []Finding) {
 	}
 	compileTie(r, known, "C01", n)
 	c02RevSuffixTie(r) // IsMatch of the reverse-suffix strategy vs its Lean model and regexp
+	c02StrategyTies(r) // the same for reverse inner / reverse anchored / reverse suffix set / multiline reverse suffix
 	obs := append(obsMatch(), obsReader()[0], Obs{"pkg.MatchString", func(re StdAPI, h []byte) string {
 		p := re.String()
 		if _, ok := re.(*coregex.Regex); ok {
@@ -228,6 +229,7 @@ func checkC02(r *Report, known []Finding) {
 	runE2E(r, known, e2eSpec{prop: "C02", obs: obs, np: 5000, nh: 12, npT: 24000, nhT: 16, nontriv: func(w string) bool { return w != "nil" && w != `""` }})
 	c02ReverseTie(r)
 	c02RevSuffixTie(r)
+	c02StrategyTies(r)
 	replayKnownExamples(r, known, "C02")
 }
 
